@@ -771,6 +771,10 @@ fn can_show_definition(ctx: &Context, name: &str) -> bool {
 fn expand_aliases(ctx: &Context, name: &str) -> (String, String) {
     let mut name = name.to_owned();
     let mut canon = ctx.canonicalize(&name).unwrap_or_else(|| name.clone());
+    // A definition file that failed to load can leave an alias cycle
+    // behind, stop when coming back to a name that was already seen.
+    let mut seen = std::collections::BTreeSet::new();
+    seen.insert(name.clone());
 
     while let Some(&Expr::Unit { name: ref unit }) = {
         ctx.registry
@@ -779,6 +783,9 @@ fn expand_aliases(ctx: &Context, name: &str) -> (String, String) {
             .or_else(|| ctx.registry.definitions.get(&*canon))
     } {
         if ctx.registry.base_units.contains(&*name) {
+            break;
+        }
+        if !seen.insert(unit.clone()) {
             break;
         }
         let unit_canon = ctx.canonicalize(unit).unwrap_or_else(|| unit.clone());
